@@ -23,7 +23,7 @@ from vf import connsim, tlaval
 from vf.ctx import REPO, ROOT
 from vf.tlc import TLCFailure, parse_tagged
 
-CACHE_DIR = ROOT / "out" / "cache"
+CACHE_DIR = Path(os.environ.get("VERIF_CACHE_DIR", ROOT / "out" / "cache"))
 
 FIELD_PROP = {
     "cs": "C05", "ic": "C05",
@@ -176,6 +176,16 @@ def random_family(rng: random.Random, n: int, p_fault: float, calls: bool, subs:
     return out
 
 
+def _jsonable(v):
+    if isinstance(v, (set, frozenset)):
+        return sorted((_jsonable(x) for x in v), key=repr)
+    if isinstance(v, (list, tuple)):
+        return [_jsonable(x) for x in v]
+    if isinstance(v, dict):
+        return {str(k): _jsonable(x) for k, x in v.items()}
+    return v
+
+
 def run_family(ctx, name: str, cases: list) -> dict:
     """Execute and validate a family.  Result (cacheable): stats + findings."""
     logging.disable(logging.CRITICAL)
@@ -201,7 +211,7 @@ def run_family(ctx, name: str, cases: list) -> dict:
         props, fields = attribute(res["diags"].get((idx, line), []), t["rows"], line)
         row = t["rows"][line - 1] if line - 1 < len(t["rows"]) else {}
         findings.append({"props": sorted(props), "fields": fields, "cause": row.get("c"), "cfg": t["cfg"], "schedule": cases[idx][1], "line": line,
-                         "rows": t["rows"][max(0, line - 8) : line]})
+                         "rows": t["rows"][max(0, line - 8) : line], "model": _jsonable(res.get("views", {}).get((idx, line)))})
     for idx, invname in res["invariant"]:
         t = traces[idx]
         findings.append({"props": sorted(INV_PROP.get(invname, {"C05", "C07", "C08", "C09"})), "fields": ["invariant:" + invname], "cause": "invariant", "cfg": t["cfg"],
@@ -245,6 +255,10 @@ def replay_case(ctx, case) -> None:
     res = run_family(ctx, "replay", [(case["cfg"], sch)])
     for f in res["findings"]:
         print("  unexplained row", f["line"], "fields", f["fields"], "attributed to", f["props"])
+        if f.get("rows"):
+            print("  observed :", json.dumps(f["rows"][-1])[:1500])
+        for m in f.get("model") or []:
+            print("  specified:", json.dumps(m)[:1500])
         if case["property"] in f["props"]:
             ctx.violation(case["sig"], {"kind": "conn-trace", **f})
 
